@@ -159,6 +159,7 @@ Record column := { col_name : string; col_opt : bool; col_cont : string; col_tym
                    col_nullable_arg : bool }.
 Record fkcol := { fk_name : string; fk_target : string; fk_opt : bool }.
 Record rel := { rel_name : string; rel_target : string; rel_uselist : bool; rel_fk : string; rel_secondary : string;
+                rel_joins : string;   (* ", primaryjoin=..., secondaryjoin=..." for a collection of the own class, else "" *)
                 rel_remote : string   (* remote_side: "" or the target's primary key (reference into the own table, 22a99b9) *) }.
 Record table := { t_cls : string; t_module : string; t_name : string; t_base : option string; t_pk : string;
                   t_pk_target : string;
@@ -278,22 +279,32 @@ Definition schema_wf (s : schema) : bool :=
   negb (s_error s) && wf_attrs_unique s && wf_attrs_not_reserved s && wf_table_names_unique s && wf_fk_targets s
   && wf_assoc_columns s && wf_imports s && wf_polymorphic s && wf_bases_first [] (s_tables s).
 
-(* ---------------------------------------------------------------- the fragment F: inputs outside it are the defect classes K *)
-(* C06-a: no collection of the class itself (nor of a class whose name differs only in case) *)
-Definition F_selfcoll (M : cmodel) : bool :=
-  forallb (fun c => forallb (fun f => match kind_of M f with
-                                      | KColl t => negb (String.eqb (py_lower t) (py_lower (c_name c)))
-                                      | _ => true end) (own_public_fields M c)) M.
-(* C06-b (no public int/float/str/bool scalar => `builtins` not imported) was repaired in /repo by b804898:
-   no hypothesis is needed any more *)
-(* C06-c/d/e/f: no field named like a generated attribute or a reserved one; no x_id beside a reference x *)
+(* ---------------------------------------------------------------- the fragment F and the refused shapes
+   C06-a (collection of the own class) was repaired by c757abc and needs no hypothesis any more.
+   Since bd9b8e0 ORMatic REFUSES (ValueError naming the clash) the models whose generated names clash:  *)
+(* C06-c/d/e/f: a field named like the generated key, like the discriminator of a polymorphic root, or `metadata`;
+   a field x_id beside a reference x *)
 Definition F_attrnames (M : cmodel) : bool :=
   forallb (fun c => let ns := field_names (own_public_fields M c) in
-                    forallb (fun f => negb (str_in (f_name f) ["database_id"; "polymorphic_type"; "metadata"])
+                    forallb (fun f => negb (str_in (f_name f) ["database_id"; "metadata"])
+                                      && negb (String.eqb (f_name f) "polymorphic_type"
+                                               && match parent_of M c with None => has_children M c | Some _ => false end)
                                       && match kind_of M f with
                                          | KRef _ => negb (str_in (f_name f ++ "_id") ns)
                                          | _ => true end) (own_public_fields M c)) M.
-(* C06-g/h: class names stay distinct when lower-cased and contain no underscore *)
+(* C06-h/k: two classes / collection fields stored under the same name; [tname] and [aname] are the generator's naming of
+   the table of a class and of the association table of a collection field *)
+Definition storage_names (tname : string -> string) (aname : string -> string -> string) (M : cmodel) : list string :=
+  map (fun c => tname (c_name c)) M
+  ++ flat_map (fun c => flat_map (fun f => match kind_of M f with KColl _ => [aname (tname (c_name c)) (f_name f)] | _ => [] end)
+                                 (own_public_fields M c)) M.
+Definition spec_refused (tname : string -> string) (aname : string -> string -> string) (M : cmodel) : bool :=
+  negb (F_attrnames M) || negb (str_nodup (storage_names tname aname M)).
+(* what the property asks for, including the refused shapes: [2] = refused with a ValueError at generation *)
+Definition spec_obs_r (tname : string -> string) (aname : string -> string -> string) (M : cmodel) : sx :=
+  if spec_refused tname aname M then SL [SZ 2] else spec_obs M.
+
+(* C06-g (open): class names stay distinct when lower-cased; and no underscore (association names stay unambiguous) *)
 Definition F_classnames (M : cmodel) : bool :=
   str_nodup (map py_lower (class_names M)) && forallb (fun c => negb (contains_char "_" (c_name c))) M.
-Definition inF (M : cmodel) : bool := F_selfcoll M && F_attrnames M && F_classnames M.
+Definition inF (M : cmodel) : bool := F_attrnames M && F_classnames M.
